@@ -46,6 +46,9 @@ pub enum Act {
     Blk {
         blocks: u64,
         secs: u64,
+        /// additional milliseconds (block time has sub-second resolution)
+        #[serde(default)]
+        ms: u64,
     },
     /// oracle price := absolute value
     Px {
@@ -108,6 +111,11 @@ pub enum Act {
         vamm: String,
         trader: String,
         amt: u128,
+    },
+    /// an engine message given as JSON text (entry points outside the harness's alphabets, see synth.rs)
+    RawExec {
+        by: String,
+        json: String,
     },
     EngConfig {
         by: String,
@@ -199,7 +207,7 @@ impl Act {
         }
     }
     pub fn blk(secs: u64) -> Act {
-        Act::Blk { blocks: 1, secs }
+        Act::Blk { blocks: 1, secs, ms: 0 }
     }
     /// account that signs the transaction (None for environment steps)
     pub fn sender(&self) -> Option<&str> {
@@ -220,6 +228,7 @@ impl Act {
             | Act::Whitelist { by, .. }
             | Act::DepRaw { by, .. }
             | Act::RawOp { by, .. }
+            | Act::RawExec { by, .. }
             | Act::EngConfig { by, .. }
             | Act::VammConfig { by, .. }
             | Act::VammCaps { by, .. } => Some(by),
@@ -240,6 +249,7 @@ impl Act {
                 | Act::Fund { .. }
                 | Act::DepRaw { .. }
                 | Act::RawOp { .. }
+                | Act::RawExec { .. }
         )
     }
     pub fn kind(&self) -> &'static str {
@@ -264,6 +274,7 @@ impl Act {
             Act::VammCaps { .. } => "vamm_caps",
             Act::DepRaw { .. } => "deposit_raw",
             Act::RawOp { .. } => "raw_op",
+            Act::RawExec { .. } => "raw_exec",
             Act::Funded { .. } => unreachable!(),
             Act::EngConfig { .. } => "engine_config",
             Act::VammConfig { .. } => "vamm_config",
@@ -517,8 +528,8 @@ pub fn apply_fault(w: &mut World, a: &Act, fail_at: Option<u32>) -> Outcome {
             };
             w.exec_full(by, &eng, &msg, 0, fail_at)
         }
-        Act::Blk { blocks, secs } => {
-            w.advance(*blocks, *secs);
+        Act::Blk { blocks, secs, ms } => {
+            w.advance_ms(*blocks, *secs, *ms);
             env_ok()
         }
         Act::Px { price } => set_price(w, *price),
@@ -625,6 +636,10 @@ pub fn apply_fault(w: &mut World, a: &Act, fail_at: Option<u32>) -> Outcome {
                 _ => (EngineExec::PayFunding { vamm: vamm.clone() }, 0),
             };
             w.exec_full(by, &eng, &msg, if native { funds } else { 0 }, fail_at)
+        }
+        Act::RawExec { by, json } => {
+            let v: serde_json::Value = serde_json::from_str(json).expect("raw exec json");
+            w.exec_json(by, &eng, &v)
         }
         Act::EngConfig { by, imr, mmr, plr, lf } => w.exec_full(
             by,
